@@ -110,7 +110,7 @@ def cprScalar (B act : Nat) (A : CRS Rat) (skind : Nat) (Sm Pm : DenseM) (f : Ve
 
 def cprScalarUpd (B act : Nat) (A : CRS Rat) (skind : Nat) (Sm Pm : DenseM) (f : Vec Rat) (upd : Bool) (A2 : CRS Rat) :
     String :=
-  if !(scalarOk B act A skind Sm Pm f && squareWF A2 && A2.sortedb && A2.nrows == A.nrows) then badInput else
+  if !(scalarOk B act A skind Sm Pm f && squareWF A2 && A2.nodupb && A2.nrows == A.nrows) then badInput else
   let st := CPR.initScalar A B act
   match stateOutcome st with
   | some o => o
@@ -151,7 +151,7 @@ def cprBlock (B act : Nat) (A : CRS (Array Rat)) (skind : Nat) (Sm Pm : DenseM) 
 
 def cprBlockUpd (B act : Nat) (A : CRS (Array Rat)) (skind : Nat) (Sm Pm : DenseM) (f : Vec Rat) (upd : Bool)
     (A2 : CRS (Array Rat)) : String :=
-  if !(blockOk B act A skind Sm Pm f && A2.wfb && A2.nrows == A2.ncols && A2.sortedb && A2.nrows == A.nrows) then badInput else
+  if !(blockOk B act A skind Sm Pm f && A2.wfb && A2.nrows == A2.ncols && A2.nodupb && A2.nrows == A.nrows) then badInput else
   let st := CPR.initBlock A B act
   match stateOutcome st with
   | some o => o
